@@ -2,7 +2,10 @@
 // OUTSIDE with strace (-e inject=<call>:signal=SIGKILL:when=<k> / :error=<ERRNO>:when=<k>); nothing
 // in this program knows about them.
 //
-//   h_crash <dir> <L> <N> <options> <first id> <size,size,...>
+//   h_crash <dir> <L> <N> <options> <first id> <size,size,...> [<file name> [<file name 2> <N2>]]
+//
+// <file name> defaults to app.log.  With a second file name TWO sinks live in the same process and
+// directory (the second with count limit N2); records go alternately to the first and the second.
 //
 // For every size s (>= 7) one record "r<5-digit id>" padded with 'x' to s-1 characters (+ '\n' = s
 // bytes) is sent and flushed; then "DONE <id>" is written to stderr with one write(2), so the parent
@@ -31,7 +34,11 @@ int main(int argc, char **argv)
     int L = atoi(argv[2]), N = atoi(argv[3]), o = atoi(argv[4]), start = atoi(argv[5]);
     QDir().mkpath(dir);
     QMessageLogContext ctx("f.cpp", 1, "void f()", "cat");
-    RotatingFileSink sink(dir + "/app.log", L, N, RotatingFileSink::Options(o));
+    QString name = argc > 7 ? QString::fromLocal8Bit(argv[7]) : QStringLiteral("app.log");
+    RotatingFileSink sink(dir + "/" + name, L, N, RotatingFileSink::Options(o));
+    QScopedPointer<RotatingFileSink> sink2;
+    if (argc > 9)
+        sink2.reset(new RotatingFileSink(dir + "/" + QString::fromLocal8Bit(argv[8]), L, atoi(argv[9]), RotatingFileSink::Options(o)));
     say("READY %d\n", 0);
     int id = start;
     for (const QByteArray &s : QByteArray(argv[6]).split(',')) {
@@ -40,8 +47,9 @@ int main(int argc, char **argv)
         QString text = QString("r%1").arg(id, 5, 10, QChar('0'));
         while (text.size() + 1 < size) text += QChar('x');
         LogMessage m(QtInfoMsg, ctx, text);
-        sink.send(m);
-        sink.flush();
+        RotatingFileSink &dst = (sink2 && ((id - start) & 1)) ? *sink2 : sink;
+        dst.send(m);
+        dst.flush();
         say("DONE %d\n", id);
         id++;
     }
